@@ -8,7 +8,9 @@ BIN = os.path.join(BUILD, "bin")
 LEAN = os.path.join(VERIF, "lean")
 QH = os.path.join(BIN, "qh")
 EXTRACT = os.path.join(BIN, "extract")
-GOTOLEAN = os.path.join(BIN, "gotolean")
+# (binary, generated Lean file, its namespace, json summary); order matters: TransCron.lean imports Trans.lean
+TRANSLATORS = [("gotolean", "Trans.lean", "Generated.Trans", "trans.json"),
+               ("gotolean-cron", "TransCron.lean", "Generated.TransCron", "trans_cron.json")]
 QMODEL = os.path.join(LEAN, ".lake", "build", "bin", "qmodel")
 GOENV = dict(os.environ, GOFLAGS="-mod=mod", GOPROXY="off", GOSUMDB="off", GOTOOLCHAIN="local",
              CGO_ENABLED=os.environ.get("CGO_ENABLED", "0"))
@@ -108,19 +110,23 @@ def build_all(ctx, lake_targets=None):
             ctx.facts = json.load(open(facts_json))
         except Exception:
             ctx.facts = {}
-        # the translator: internal/csm + quartz/csm.go -> Generated/Trans.lean (definitions regenerated from the source; the TransCsm /
-        # TransMachine theorems say they equal the hand-written model). A function it cannot translate is listed in `Generated.Trans.missing`
-        # (theorem `Trans.missing_none` then fails); a translator crash leaves a file that does not compile: both are broken obligations.
-        trans_json = os.path.join(BUILD, "trans.json")
-        rc, out = sh([GOTOLEAN, "-repo", REPO, "-out", os.path.join(LEAN, "QuartzModel/Generated/Trans.lean"), "-json", trans_json], timeout=300)
-        if rc != 0:
-            ctx.log("gotolean failed (rc=%d): %s" % (rc, out.strip()[-800:]))
-            open(os.path.join(LEAN, "QuartzModel/Generated/Trans.lean"), "w").write(
-                "/- gotolean failed on the current source -/\nnamespace Generated.Trans\ndef missing : List String := [\"translator-failed\"]\nend Generated.Trans\n")
-        try:
-            ctx.facts["translated"] = json.load(open(trans_json))
-        except Exception:
-            pass
+        # the translators: Go source -> Generated/Trans*.lean (definitions regenerated from the source on every run; the Trans* theorems say
+        # they equal the hand-written model). A function a translator cannot translate is listed in `Generated.Trans*.missing` (the theorem
+        # `…nothing_missing` then fails); a translator crash leaves a stub with a non-empty `missing`: both are broken obligations.
+        for binary, leanfile, ns, jsonfile in TRANSLATORS:
+            exe = os.path.join(BIN, binary)
+            if not os.path.exists(exe):
+                continue
+            target = os.path.join(LEAN, "QuartzModel/Generated", leanfile)
+            tj = os.path.join(BUILD, jsonfile)
+            rc, out = sh([exe, "-repo", REPO, "-out", target, "-json", tj], timeout=300)
+            if rc != 0:
+                ctx.log("%s failed (rc=%d): %s" % (binary, rc, out.strip()[-800:]))
+                open(target, "w").write("/- %s failed on the current source -/\nnamespace %s\ndef missing : List String := [\"translator-failed\"]\nend %s\n" % (binary, ns, ns))
+            try:
+                ctx.facts.setdefault("translated", {})[binary] = json.load(open(tj))
+            except Exception:
+                pass
         t = time.time()
         rc, out = sh(["lake", "build"] + (lake_targets or []), cwd=LEAN, timeout=3000)
         ctx.lean_ok = rc == 0
